@@ -106,6 +106,7 @@ Proof.
   assert (B0 : forall i, i <> n -> pbp P0 i = pbp P i) by (intros i Hi; unfold PathModel.pbp, P0; rewrite put_nth_other by assumption; reflexivity).
   assert (Xn : px P0 n = x) by (unfold PathModel.px, P0; rewrite put_nth_same by exact Hn; reflexivity).
   assert (L0 : n < length P0) by (apply put_len; exact Hn).
+  assert (Hclr : pbp P0 n = []) by (unfold PathModel.pbp, P0; rewrite put_nth_same by exact Hn; reflexivity).
   assert (Hlt : forall r i, In (r, i) (lvo F []) -> i < n) by (intros r i Hi; apply (Acc_lt (mkS X F P n) r i A Hi)).
   assert (Hok0 : Pok P0).
   { intro i. destruct (Nat.eq_dec i n) as [e|ne]; [subst i; rewrite Xn; exact Hx|rewrite X0 by exact ne; apply Hok]. }
@@ -116,7 +117,25 @@ Proof.
   clearbody P0. inversion I0 as [|? ? n0 roots ? Lo Fl Ik Fr EF]. subst F.
   cbn [PathModel.padd] in H. rewrite Xn in H. set (o := octf [] x) in *.
   destruct (padd L ([] ++ [o]) (nth o roots None) P0 n) as [[d P1]|] eqn:Ad; [|discriminate].
-  injection H as <-. cbn [app] in Ad. cbn [sF sP sN].
+  cbn [app] in Ad.
+  assert (Hfresh : ~ In n (idx (nth o roots None) [o])).
+  { intro Hi. unfold idx in Hi. apply in_map_iff in Hi. destruct Hi as ((r & i) & E & Hi). cbn in E. subst i.
+    destruct (Nat.lt_ge_cases o (length roots)) as [Hol|Hol]; [|rewrite nth_overflow in Hi by exact Hol; destruct Hi].
+    assert (Hi' : In (r, n) (lvo (Some (Node n0 roots)) [])).
+    { rewrite lvo_node. apply (lvl_in_conv [] roots 0 o); [exact Hol|exact Hi]. }
+    pose proof (Hlt r n Hi'). lia. }
+  destruct (pbp P1 n) as [|b0 bs] eqn:Ebp.
+  { (* refused (identical coordinates): nothing changed but the unused slot n of the particle array *)
+    assert (Ho' : o < nroot) by (apply Hoct0; assumption).
+    destruct (padd_refused X xd octf same Hoct8 L [o] _ P0 n d P1 ltac:(discriminate) Ad Hfresh L0 Ebp) as [-> ->].
+    rewrite Ebp in H. injection H as <-. cbn [sF sP sN].
+    split; [|split; [exact I0|exact Hok0]].
+    split; [|split]; cbn [sF sP sN].
+    - exact Pm.
+    - intros r i Hi. pose proof (Hlt r i Hi). rewrite B0 by lia. apply Hb. exact Hi.
+    - lia. }
+  assert (Hins : pbp P1 n <> []) by congruence.
+  rewrite Ebp in H. injection H as <-. cbn [sF sP sN].
   assert (Ho : o < nroot) by (apply Hoct0; assumption).
   assert (Hin1 : ins [o] (px P0 n) = true) by (rewrite Xn; apply (Hroute [] x Hx); [cbn; lia|exact Hin]).
   assert (Hne : [o] <> []) by discriminate.
@@ -126,7 +145,7 @@ Proof.
     - eapply full_free. apply Fl. exact h.
     - rewrite h. eapply inv_free; [exact Ik|discriminate].
     - apply Fr. exact h. }
-  destruct (padd_data X xd octf same Hoct8 L [o] _ P0 n d P1 Hne Fc Ad) as (Fd & Ld & Xd & Pd & Bf & Bx).
+  destruct (padd_data X xd octf same Hoct8 L [o] _ P0 n d P1 Hne Fc Ad Hclr Hfresh Hins) as (Fd & Ld & Xd & Pd & Bf & Bx).
   assert (Sn : Permutation (lvl [] (upd roots o d) 0) (lvo d [o] ++ lvl [] (upd roots o None) 0)) by (apply (lvl_upd_split [] roots o d); lia).
   assert (So : Permutation (lvl [] roots 0) (lvo (nth o roots None) [o] ++ lvl [] (upd roots o None) 0)) by (apply (lvl_split [] roots o); lia).
   rewrite lvo_node in Pm.
@@ -161,11 +180,11 @@ Proof.
     + rewrite upd_len. exact Lo.
     + intros j Hj. rewrite nth_upd_cases. destruct (Nat.eqb o j && Nat.ltb o (length roots)) eqn:E.
       * apply andb_prop in E. destruct E as [E _]. apply Nat.eqb_eq in E. subst j.
-        eapply (padd_full X xd ins octf same L okx Hoct8 Hroute); [exact Hne|exact Ad|apply Fl; exact Hj|exact Hok0|exact Hin1|exact Hf].
+        eapply (padd_full X xd ins octf same L okx Hoct8 Hroute); [exact Hne|exact Ad|exact Hclr|exact Hfresh|exact Hins|apply Fl; exact Hj|exact Hok0|exact Hin1|exact Hf].
       * eapply full_ext; [exact Xd|apply Fl; exact Hj].
     + rewrite nth_upd_cases. destruct (Nat.eqb o k && Nat.ltb o (length roots)) eqn:E.
       * apply andb_prop in E. destruct E as [E _]. apply Nat.eqb_eq in E. rewrite <- E in *. cbn [app] in *.
-        eapply (padd_inv X xd ins octf same L nroot okx Hoct8 Hroute); [exact Hne|exact Ad|exact Ik|exact Hok0|exact Hin1|exact Hf].
+        eapply (padd_inv X xd ins octf same L nroot okx Hoct8 Hroute); [exact Hne|exact Ad|exact Hclr|exact Hfresh|exact Hins|exact Ik|exact Hok0|exact Hin1|exact Hf].
       * eapply inv_ext; [exact Xd|exact Ik].
     + intros j Hj. rewrite nth_upd_cases. destruct (Nat.eqb o j && Nat.ltb o (length roots)) eqn:E.
       * apply andb_prop in E. destruct E as [E _]. apply Nat.eqb_eq in E. subst j. exact Fd.
